@@ -119,6 +119,20 @@ func C16(p *engine.Prog, r *engine.Report) {
 				if _, fromField := loadOfField(lk.X, "ValidationCeremony", "shardLotteries"); fromField {
 					// shard = vc.shardCandidates[K']
 					for v := range engine.BackSlice(a[3], engine.DefaultSlice) {
+						// `for shardId, shard := range vc.shardCandidates`: value and key of the same iteration
+						if ex, isEx := v.(*ssa.Extract); isEx && ex.Index == 2 {
+							if nx, isNx := ex.Tuple.(*ssa.Next); isNx {
+								if rg, isRg := nx.Iter.(*ssa.Range); isRg {
+									if _, ff := loadOfField(rg.X, "ValidationCeremony", "shardCandidates"); ff {
+										if kx, isKx := engine.Unwrap(lk.Index).(*ssa.Extract); isKx && kx.Index == 1 && kx.Tuple == ex.Tuple {
+											ok = true
+										} else {
+											detail = "different shard keys"
+										}
+									}
+								}
+							}
+						}
 						if lk2, isL2 := v.(*ssa.Lookup); isL2 {
 							if _, ff := loadOfField(lk2.X, "ValidationCeremony", "shardCandidates"); ff {
 								if engine.PathOf(lk2.Index) == engine.PathOf(lk.Index) {
